@@ -295,6 +295,24 @@ def eval_seq(ctx, vcorr, seq_lines, cmp_spec=True, time_scale=None):
     return None, impl, [x.split("\t")[0] for x in mod], [x.split("\t")[-1] for x in mod]
 
 
+def time_sensitive(ctx, vcorr, seq_lines, label, orig_op="", orig_impl=""):
+    """The harnesses run real goroutines against real timers (the subscribe server's send timeout, the
+    harnesses' own deadlines).  On a loaded machine a sequence can take long enough for such a timer to fire
+    where no timeout was scripted.  A divergence is believed only if it also shows with every harness-side
+    duration stretched four times (VERIF_TIME_SCALE=4: scripted timeouts are stretched alike, so a timer that
+    is wrongly armed, never disarmed or never fires still shows): three tries.  Returns True when it does
+    not — the case is recorded in the evidence and not reported."""
+    for _ in range(3):
+        d, *_ = eval_seq(ctx, vcorr, seq_lines, time_scale=4)
+        if d is not None:
+            return False
+    ctx.cov.setdefault("time_sensitive", []).append(
+        {"component": label, "ops": len(seq_lines), "op": orig_op[:300], "impl_once": orig_impl[:300]})
+    log("  %s: a divergence vanished with harness durations stretched x4 in 3 re-runs (load-induced timeout; not reported): %s -> %s"
+        % (label, orig_op[:120], orig_impl[:80]))
+    return True
+
+
 def shrink(ctx, vcorr, seq_lines):
     """greedy minimisation of a diverging sequence (keeps the leading reset line)"""
     cur = list(seq_lines)
@@ -467,6 +485,8 @@ def correspondence(ctx, cfg_comp, label=None):
                     log("  %s: one divergence did not reproduce in 5 re-runs of the same sequence (not reported): %s -> %s"
                         % (label, orig.get("op", "")[:120], orig.get("impl", "")[:80]))
                     continue
+            if time_sensitive(ctx, vcorr, small, label, small[d] if d < len(small) else "", im[d] if d < len(im) else "<no-output>"):
+                continue
             payload = {"component": label, "generator": name, "ops": small,
                        "impl": im[:len(small)], "model": mo[:len(small)], "spec": sp[:len(small)],
                        "first_divergence": d, "original_divergence": orig}
@@ -504,6 +524,9 @@ def run_corpus(ctx, cfg):
                        "model": mo[:len(lines)], "spec": sp[:len(lines)], "first_divergence": idx}
             if kf and (kf.get("obs") is None or kf["obs"] == im[idx]):
                 ctx.known.append("KNOWN-FINDING: property=%s %s" % (ctx.prop, kf["text"]))
+            elif time_sensitive(ctx, vcorr, lines, "corpus/" + name, lines[idx] if idx < len(lines) else "",
+                                im[idx] if idx < len(im) else "<no-output>"):
+                pass
             else:
                 ctx.problems.append(("divergence", "corpus case %s diverges" % name, payload))
     ctx.cov["evaluations"] += n
